@@ -482,9 +482,22 @@ def _loops_to_comprehensions(stmts):
 _NONNULL_CALLS = ("np.array", "np.asarray", "np.zeros", "np.ones", "np.empty", "np.full", "np.arange", "np.concatenate", "np.unique", "np.where")
 
 
+_NP_RETURNING_NONE = ("np.random.seed", "np.copyto", "np.put", "np.place", "np.putmask", "np.save", "np.savez", "np.savetxt", "np.fill_diagonal", "np.random.shuffle",
+                      "np.seterr", "np.testing.assert_allclose", "np.testing.assert_array_equal")
+
+
 def _nonnull_expr(e):
     if isinstance(e, ast.Call):
-        return U(e.func) in _NONNULL_CALLS
+        f_ = U(e.func)
+        if f_ in _NONNULL_CALLS:
+            return True
+        # numpy functions return arrays / scalars (the few procedures that return None are listed); Generator draws likewise
+        if f_.startswith("np.") and f_ not in _NP_RETURNING_NONE and not f_.startswith("np.testing."):
+            return True
+        if isinstance(e.func, ast.Attribute) and e.func.attr in ("choice", "permutation", "integers", "normal", "random", "uniform", "gamma", "standard_normal") \
+                and isinstance(e.func.value, ast.Name) and e.func.value.id in ("rng", "generator", "random_state"):
+            return True
+        return False
     # the result of an arithmetic / bitwise / comparison operator on arrays or numbers is never None (None operands raise)
     if isinstance(e, ast.UnaryOp) and isinstance(e.op, (ast.Invert, ast.USub, ast.UAdd)):
         return True
